@@ -77,8 +77,14 @@ func Lines(r io.Reader) []string {
 // Out is a buffered stdout writer flushed by Flush.
 var Out = bufio.NewWriterSize(os.Stdout, 1<<16)
 
+// FlushEach makes every reply visible at once (a child that may be killed mid-run).
+var FlushEach bool
+
 func Reply(format string, args ...interface{}) {
 	fmt.Fprintf(Out, format+"\n", args...)
+	if FlushEach {
+		Out.Flush()
+	}
 }
 
 func Flush() { Out.Flush() }
